@@ -28,3 +28,33 @@ func loadReplayCase(path string) *Case {
 	must(json.Unmarshal(b, c))
 	return c
 }
+
+// loadReplayHist reads a history case (instance + user constraint + seed) from a replay file.
+func loadReplayHist(path string) *histCase {
+	b, err := os.ReadFile(path)
+	must(err)
+	var wrap struct {
+		Replay json.RawMessage `json:"replay"`
+	}
+	hc := &histCase{}
+	if json.Unmarshal(b, &wrap) == nil && len(wrap.Replay) > 0 {
+		var inner struct {
+			Case json.RawMessage `json:"case"`
+		}
+		if json.Unmarshal(wrap.Replay, &inner) == nil && len(inner.Case) > 0 {
+			var probe struct {
+				Case json.RawMessage `json:"case"`
+			}
+			if json.Unmarshal(inner.Case, &probe) == nil && len(probe.Case) > 0 {
+				must(json.Unmarshal(inner.Case, hc))
+				return hc
+			}
+		}
+		must(json.Unmarshal(wrap.Replay, hc))
+		if hc.Case != nil {
+			return hc
+		}
+	}
+	must(json.Unmarshal(b, hc))
+	return hc
+}
